@@ -124,7 +124,7 @@ Definition c03j_world : Jsr.jworld :=
                                                            Jsr.vi_modinfo := [(1, [])] |};
                                   Jsr.v_cached := false |})];
      Jsr.jw_match := [(1, [1])]; Jsr.jw_lock_pkg := None; Jsr.jw_lock_remote := []; Jsr.jw_http := [2; 3];
-     Jsr.jw_missing_chk := 8; Jsr.jw_max_redirects := 10; Jsr.jw_seed := [] |}.
+     Jsr.jw_missing_chk := 8; Jsr.jw_max_redirects := 10; Jsr.jw_seed := []; Jsr.jw_late := [] |}.
 Example C03_registry_nonvacuous :
   Jsr.wf_jworld c03j_world = true /\
   match Jsr.jbuild c03j_world {| Jsr.jo_prefer_cached := false |} [1] with
